@@ -334,10 +334,11 @@ func interacting(c Case) bool {
 }
 
 var subOrder = runlog.Register(&runlog.Sub[Case]{
-	Name: "order-independence",
-	Rule: "four input classes: (newfrom) top-level maps whose keys overlap after dotted expansion (same leaf, prefixes of one another, object vs primitive vs list vs nil), optionally with references; (merge) two such maps merged under one of the five policies; (refs) reference graphs incl. cycles absorbed by defaults/resolvers unpacked into generic data; (faults) the same graphs unpacked into a typed struct so that several settings fail with faults of different kinds. Each case carries 3-6 insertion permutations; the operation is repeated 8 (quick) / 24 (thorough) / 200 (replay) times on freshly built inputs and all outcome signatures (canonical data, or error kind = root Reason with quoted parts blanked) must be equal. Non-trivial: at least two keys at one level overlap or settings reference each other, and at least two different enumeration orders of the root dictionary were observed. Distinct: hash of the case.",
-	Gen:  genCase,
-	Run:  runCase,
+	Name:    "order-independence",
+	Rule:    "four input classes: (newfrom) top-level maps whose keys overlap after dotted expansion (same leaf, prefixes of one another, object vs primitive vs list vs nil), optionally with references; (merge) two such maps merged under one of the five policies; (refs) reference graphs incl. cycles absorbed by defaults/resolvers unpacked into generic data; (faults) the same graphs unpacked into a typed struct so that several settings fail with faults of different kinds. Each case carries 3-6 insertion permutations; the operation is repeated 8 (quick) / 24 (thorough) / 200 (replay) times on freshly built inputs and all outcome signatures (canonical data, or error kind = root Reason with quoted parts blanked) must be equal. Non-trivial: at least two keys at one level overlap or settings reference each other, and at least two different enumeration orders of the root dictionary were observed. Distinct: hash of the case.",
+	Gen:     genCase,
+	Run:     runCase,
+	Journal: true, // a worker that dies (memory, stack) names its case
 })
 
 func TestOrderIndependence(t *testing.T) { subOrder.Check(t, 120000, 3000000) }
